@@ -836,6 +836,11 @@ class Executor:
                 pending_variant = st[1]
             elif k == "field":
                 v = self.read(root, path)
+                fty = st[2] if len(st) > 2 and isinstance(st[2], str) else ""
+                if re.match(r"^(std::ptr::)?(Unique|NonNull)<", fty) and not (isinstance(v, VStruct) and base_ty(v.ty) in ("Box", "Unique", "NonNull")):
+                    # the pointer inside a Box: a Box<T> is modelled as the T itself
+                    pending_variant = None
+                    continue
                 if isinstance(v, VAdt):
                     if pending_variant is None:
                         # single-variant access without downcast does not occur for enums
@@ -1319,7 +1324,7 @@ def explore(program, config, entry, make_args, on_path, max_paths=20000, time_bu
         ex = Executor(program, config, dec)
         try:
             args = make_args(ex)
-            ret = ex.run_function(entry, args)
+            ret = entry(ex, args) if callable(entry) else ex.run_function(entry, args)   # a callable entry composes several functions on one path
             res = PathResult(ex, "return", ret)
         except PathEnd as e:
             res = PathResult(ex, e.kind, None, e.msg)
